@@ -17,6 +17,7 @@ from onl.sim.events import Initialize, Timeout
 from onl.utils.timer import Timer
 from vlib.util import bits, unbits, run_driver, split_cases, quiet
 
+EXTRA_MODULES = ('OnlVerif.Props.C19K',)
 ASSUMPTIONS = [
     'timeouts (constructor and restart) are positive finite numbers; other constructor values are refused with ValueError',
     'user callbacks do not raise; they may call stop()/restart(tau) on their own timer',
